@@ -434,6 +434,22 @@ theorem C12_tuple_decode_framing (p : Nat) (ts : List CqlTy) (gs : List GoTy) (b
     unmarshalTupleScan p ts gs b = .ok xs [] :=
   unmarshalTupleScan_spec p ts gs b cs xs h hok
 
+open C12Frame in
+/-- model decode = specification decode, tuples into a struct / slice / array (structural step): `setField` is one
+    field of unmarshalTuple — decode into goType(elem), then the slot rule `setSlot` (`unmarshalTupleSet_cons`); every
+    field the specification reader delivers reaches it as null, EMPTY or bytes; absent trailing fields are null -/
+theorem C12_tuple_struct_decode_framing (p : Nat) (ts : List CqlTy) (gs : List GoTy) (b : Bytes) (cs : List CqlVal)
+    (xs : List GoVal) (h : specDecFields p ts b = some cs) (hok : SetOK p ts gs cs xs) :
+    unmarshalTupleSet p ts gs b = .ok xs [] :=
+  unmarshalTupleSet_spec p ts gs b cs xs h hok
+
+open C12Frame in
+/-- the slot rule keeps null and EMPTY apart: a pointer field of the element's Go type is nil exactly for a null
+    element; a present element — empty or not — gives a non-nil pointer to the decoded value -/
+theorem C12_slot_null_vs_empty (t : CqlTy) (item : Option Bytes) (v : GoVal) :
+    setSlot t (.ptr (goTypeOf t)) item v = if item.isSome then .ok (.ptr v) else .ok .nilptr :=
+  setSlot_ptr t item v
+
 /-! ## duration: three zig-zag vints -/
 
 /-- encVint = the specification's signed vint (zig-zag, then the unsigned vint whose first byte announces the number
